@@ -2150,7 +2150,7 @@ def run_case(rep, case, seen_sig):
 
 def run_shard(rep, tier, seed, shard, nshards):
     dl = Deadline(budget(tier, 40, 400))
-    ncases = budget(tier, 12000, 60000)
+    ncases = budget(tier, 12000, 250000)
     seen_sig = {}
     for k in range(ncases):
         if dl.expired():
